@@ -311,7 +311,8 @@ class SumProduct(MapperContract):
 def units():
     from . import cfinder
     return [FunctionUnit(RecContract()), FunctionUnit(CommutAssoc()),
-            FunctionUnit(SumProduct("map_sum", "Sum")), FunctionUnit(SumProduct("map_product", "Product"))] \
+            FunctionUnit(SumProduct("map_sum", "Sum")), FunctionUnit(SumProduct("map_product", "Product")),
+            FunctionUnit(CollapsingCall()), FunctionUnit(CollapseDriver())] \
         + cfinder.units()
 
 
@@ -329,7 +330,9 @@ TRUSTED_BASE = [
 ]
 ASSUMPTIONS = [
     "a hoisted variable denotes the expression assigned to it (the meaning of 'with the hoisted assignments substituted back')",
-    "collapse_constants itself (three lines: call the mapper, call assign_func for every recorded assignment) is covered by the bounded stand-in",
+    "collapse_constants and _ExpressionCollapsingMapper.__call__ are under contract (every recorded assignment handed to assign_func exactly once, with its expression; "
+    "the finder's table, new_var_func and an empty map in place before the traversal); the dict the mapper fills is the same object __call__ returns (aliasing of "
+    "self.assignments, tagged not modelled)",
 ]
 EXPLANATION = ("_ExpressionCollapsingMapper.rec and map_commut_assoc are executed symbolically over an abstract value semantics (arbitrary "
                "valuation, + and * as one uninterpreted commutative-associative operator): the returned expression is proved to denote the "
@@ -337,3 +340,139 @@ EXPLANATION = ("_ExpressionCollapsingMapper.rec and map_commut_assoc are execute
                "`assignments` is proved to mention no free variable (given the finder's postcondition) and to be assigned to a variable "
                "freshly obtained from new_var_func, exactly once; combine_func is proved never to receive an empty operand list; map_sum / "
                "map_product delegate with their own constructor.")
+
+
+# ---- collapse_constants and _ExpressionCollapsingMapper.__call__ (the drivers) -----------------------------------------
+ExprSet18 = z3.ArraySort(Expr, BoolSort())
+vm_val = z3.Function("assignment_of", Expr, Expr)      # variable_map[v]
+
+
+class VVarMap(V):
+    """the assignments dict returned by the mapper: keys = hoisted variables (each once), values = their expressions"""
+    ty = None
+
+    def __init__(self, keys):
+        self.keys = keys
+
+
+class VVMItems(V):
+    ty = None
+
+    def __init__(self, keys):
+        self.keys = keys
+
+    def for_loop(self, it, s, k, spec, ex):
+        it._for_set(s, k, spec, VSet(TSet(EXPR), self.keys), ex,
+                    lambda x: VTuple([EXPR.wrap(x), EXPR.wrap(vm_val(x))]))
+
+
+class CollapseDriver(FunctionContract):
+    """collapse_constants: hands every recorded assignment to assign_func exactly once (a dict has each key once) and
+    returns the mapper's expression"""
+    prop = PROP
+    relpath = REL
+    qualname = "collapse_constants"
+    prune_quantified = False
+
+    def __init__(self):
+        self.e = z3.Const("expression", Expr)
+        self.keys = z3.Const("hoisted_variables", ExprSet18)
+        self.newe = z3.Const("new_expression", Expr)
+
+    def params(self, ctx):
+        ctx.env["expression"] = EXPR.wrap(self.e)
+        ctx.env["free_variables"] = VPy("<free_variables>")
+        ctx.env["assign_func"] = VFunc("assign_func", self.m_assign)
+        ctx.env["new_var_func"] = VPy("<new_var_func>")
+        ctx.ghost["assigned"] = z3.K(Expr, z3.BoolVal(False))
+        ctx.ghost["twice"] = z3.BoolVal(False)
+        ctx.ghost["wrong"] = z3.BoolVal(False)
+        ctx.ghost["mapper_ok"] = z3.BoolVal(False)
+
+    def m_assign(self, ctx, it, args, kw):
+        v, x = [ctx.deref(a) for a in args]
+        ctx.ghost["twice"] = Or(ctx.ghost["twice"], Select(ctx.ghost["assigned"], v.t))
+        ctx.ghost["wrong"] = Or(ctx.ghost["wrong"], x.t != vm_val(v.t))
+        ctx.ghost["assigned"] = Store(ctx.ghost["assigned"], v.t, True)
+        return NONE
+
+    def m_mapper_cls(self, ctx, it, args, kw):
+        fv = ctx.deref(args[0]) if args else None
+        good_fv = isinstance(fv, VPy) and fv.py == "<free_variables>"
+
+        def call(ctx, it, a, k):
+            a = [ctx.deref(x) for x in a]
+            ok = (good_fv and len(a) == 2 and isinstance(a[0], VElem) and a[0].t.eq(self.e)
+                  and isinstance(a[1], VPy) and a[1].py == "<new_var_func>")
+            ctx.ghost["mapper_ok"] = z3.BoolVal(bool(ok))
+            return VTuple([EXPR.wrap(self.newe), VVarMap(self.keys)])
+        return VFunc("mapper", call)
+
+    names = property(lambda self: {"_ExpressionCollapsingMapper": VFunc("_ExpressionCollapsingMapper", self.m_mapper_cls)})
+
+    def getattr_hook(self, ctx, it, obj, name):
+        o = ctx.deref(obj)
+        if isinstance(o, VVarMap) and name == "items":
+            return VFunc("items", lambda ctx, it, a, k: VVMItems(o.keys))
+        return None
+
+    def inv(self, s):
+        return [("assigned-so-far-are-exactly-the-processed-variables", s.g("assigned") == s.loop(0)["$proc"].t),
+                ("nothing-assigned-twice-or-with-another-expression", And(Not(s.g("twice")), Not(s.g("wrong"))))]
+
+    loops = property(lambda self: {0: dict(shape="for (variable, expr) in variable_map.items()", inv=self.inv,
+                                           havoc_ghosts=["assigned", "twice", "wrong"])})
+
+    def ensures(self, st):
+        r = st.result
+        return [("mapper-built-from-the-free-variables-and-run-on-the-expression-with-new_var_func", st.g("mapper_ok")),
+                ("every-hoisted-variable-is-assigned", st.g("assigned") == self.keys),
+                ("exactly-once-and-with-its-recorded-expression", And(Not(st.g("twice")), Not(st.g("wrong")))),
+                ("returns-the-mapper's-expression", z3.BoolVal(isinstance(r, VElem)) if not isinstance(r, VElem) else r.t == self.newe)]
+
+
+class CollapsingCall(FunctionContract):
+    """_ExpressionCollapsingMapper.__call__: classifies with the finder built from the free variables, starts from an
+    empty assignment map, returns (IdentityMapper.__call__(expr), the map)"""
+    prop = PROP
+    relpath = REL
+    qualname = "_ExpressionCollapsingMapper.__call__"
+
+    def __init__(self):
+        self.e = z3.Const("expr", Expr)
+
+    def params(self, ctx):
+        self.finder = VFunc("constant_finding_mapper", self.m_finder)
+        ctx.env["self"] = ctx.alloc(VObj(TObj("Mapper", {}), {
+            "constant_finding_mapper": self.finder, "new_var_func": VPy("<unset>"), "is_constant": VPy("<unset>"),
+            "assignments": VPy("<unset>")}))
+        ctx.env["expr"] = EXPR.wrap(self.e)
+        ctx.env["new_var_func"] = VPy("<new_var_func>")
+        ctx.ghost["order"] = z3.BoolVal(False)
+
+    def m_finder(self, ctx, it, args, kw):
+        a = ctx.deref(args[0])
+        return VPy("<table of the finder on expr>" if isinstance(a, VElem) and a.t.eq(self.e) else "<table of ?>")
+
+    def m_identity_call(self, ctx, it, args, kw):
+        o = ctx.deref(ctx.env["self"])
+        f = {k: ctx.deref(v) for k, v in o.fields.items()}
+        ready = (isinstance(f["is_constant"], VPy) and f["is_constant"].py == "<table of the finder on expr>"
+                 and isinstance(f["new_var_func"], VPy) and f["new_var_func"].py == "<new_var_func>"
+                 and isinstance(f["assignments"], VPy) and f["assignments"].py == "<empty dict>")
+        a = ctx.deref(args[1])
+        ctx.ghost["order"] = z3.BoolVal(bool(ready and isinstance(a, VElem) and a.t.eq(self.e)))
+        return VPy("<mapped expr>")
+
+    def dict_literal(self, ctx, it, e):
+        return VPy("<empty dict>" if not e.keys else "<dict>")
+
+    calls = property(lambda self: {"IdentityMapper.__call__": self.m_identity_call})
+
+    def ensures(self, st):
+        r = st.result
+        good = (isinstance(r, VTuple) and len(r.items) == 2 and isinstance(st._deref(r.items[0]), VPy)
+                and st._deref(r.items[0]).py == "<mapped expr>" and isinstance(st._deref(r.items[1]), VPy)
+                and st._deref(r.items[1]).py == "<empty dict>")
+        return [("the-table-the-function-and-an-empty-map-are-in-place-before-the-traversal", st.g("order")),
+                ("returns-the-mapped-expression-and-the-assignment-map", z3.BoolVal(bool(good)))]
